@@ -38,6 +38,10 @@ type call struct {
 type S struct {
 	mu       sync.Mutex
 	faults   bool
+	pushOn   bool
+	healed   bool
+	pings    bool // keep-alive pings fall into the run
+	srv3     *world.Server
 	calls    []*call
 	srv      *world.Server
 	srv2     *world.Server
@@ -88,7 +92,17 @@ func (s *S) Run(c *scen.Ctx) {
 		objMax = []int32{0, 0, 1, 3}[simrt.Draw(4, "c09.objmax")]
 	}
 	c.Describe("obj_queue_max", objMax)
-	comm := world.NewClient(world.ClientOpts{InvokeTimeoutMs: s.proxyTO, DialTimeout: s.dialTO, WriteTimeout: s.writeTO, ReadTimeout: s.readTO, QueueLen: qlen, ObjQueueMax: objMax})
+	// a push client (a proxy with a push callback) pings its endpoints every half client idle
+	// time-out; with a short one the pings fall into the run, also onto dead or refusing peers
+	s.pushOn = simrt.Draw(4, "c09.pushcb") == 3
+	s.tls = s.faults && simrt.Draw(8, "c09.tls") == 7
+	idle := time.Duration(0)
+	if s.pushOn && !s.tls { // (no peer of the simulation completes a TLS handshake: pings would never get through)
+		idle = []time.Duration{0, 400 * time.Millisecond, 2 * time.Second}[simrt.Draw(3, "c09.pushidle")]
+	}
+	s.pings = idle > 0
+	c.Describe("client_idle_timeout", idle.String())
+	comm := world.NewClient(world.ClientOpts{InvokeTimeoutMs: s.proxyTO, DialTimeout: s.dialTO, WriteTimeout: s.writeTO, ReadTimeout: s.readTO, QueueLen: qlen, ObjQueueMax: objMax, IdleTimeout: idle})
 	var err error
 	s.srv, err = world.StartServer(addr, func(sc *world.SrvConn, req *refcodec.Request, raw []byte) { s.onRequest(c, sc, req) })
 	if err != nil {
@@ -100,9 +114,8 @@ func (s *S) Run(c *scen.Ctx) {
 	// stays silent, closes, or answers with something else): connecting includes the handshake,
 	// and the connection-establishment bound covers both
 	obj := "App.Srv.Obj@tcp -h 10.0.0.9 -p 1000 -t 3000"
-	if s.faults && simrt.Draw(8, "c09.tls") == 7 {
+	if s.tls {
 		obj = "App.Srv.Obj@ssl -h 10.0.0.9 -p 1000 -t 3000"
-		s.tls = true
 		c.Count("fault.tls_handshake_never_completes", 1)
 	}
 	c.Describe("ssl_endpoint", s.tls)
@@ -111,7 +124,7 @@ func (s *S) Run(c *scen.Ctx) {
 	for i := []int{0, 0, 1, 2}[simrt.Draw(4, "c09.proxies")]; i > 0; i-- {
 		s.prxs = append(s.prxs, world.Proxy(comm, obj))
 	}
-	if simrt.Draw(4, "c09.pushcb") == 3 {
+	if s.pushOn {
 		// a push client: the proxy has a push callback (the framework then keeps the connection alive)
 		for _, p := range s.prxs {
 			p.SetPushCallback(func([]byte) {})
@@ -218,8 +231,36 @@ func (s *S) Run(c *scen.Ctx) {
 	// (plus one dial time-out: a sender that found requests queued for a lost connection may
 	// still be dialling a black-holed address, holding the connection lock others wait for)
 	simrt.Sleep(s.readTO + ms(s.proxyTO) + ms(1700) + ms(500) + s.dialTO + ms(100))
+	if s.pushOn && idle > 0 {
+		// Keep-alive pings go on for the life of the process, and a ping to a dead peer holds its
+		// place in the proxy's queue for a dial or write time-out, one ping after the other. Before
+		// the counters are read the faults stop: the address is reachable again and a fresh server
+		// answers everything, so that a ping takes no time. What a call or a failed ping left
+		// behind stays; what a ping holds while it is being sent does not.
+		s.mu.Lock()
+		s.healed = true
+		s.mu.Unlock()
+		simnet.SetRefuse(addr, false)
+		simnet.SetBlackhole(addr, false)
+		for _, sv := range s.servers() {
+			sv.Stop(true)
+		}
+		if ns, err := world.StartServer(addr, s.srv.OnRequest); err == nil {
+			ns.OnAccept = s.srv.OnAccept
+			s.mu.Lock()
+			s.srv3 = ns
+			s.mu.Unlock()
+		}
+		c.Count("probe.faults_stopped_before_counters_are_read", 1)
+		simrt.Sleep(s.dialTO + s.writeTO + ms(1000))
+	}
+	after := s.state()
+	for i := 0; i < 5 && s.pushOn && (after.QueueLen != s.before.QueueLen || after.Pending != s.before.Pending || after.InvokeNum != s.before.InvokeNum); i++ {
+		simrt.Sleep(ms(137))
+		after = s.state()
+	}
 	s.mu.Lock()
-	s.after = s.state()
+	s.after = after
 	s.finished = true
 	s.mu.Unlock()
 }
@@ -239,12 +280,18 @@ func (s *S) servers() []*world.Server {
 	if s.srv2 != nil {
 		out = append(out, s.srv2)
 	}
+	if s.srv3 != nil {
+		out = append(out, s.srv3)
+	}
 	return out
 }
 
 func (s *S) onAccept(c *scen.Ctx, sc *world.SrvConn) bool {
 	mode := "normal"
-	if s.faults {
+	s.mu.Lock()
+	healed := s.healed
+	s.mu.Unlock()
+	if s.faults && !healed {
 		switch simrt.Draw(8, "c09.connmode") {
 		case 1:
 			mode = "close-on-accept"
@@ -295,6 +342,13 @@ func (s *S) onRequest(c *scen.Ctx, sc *world.SrvConn, req *refcodec.Request) {
 			return
 		}
 		simrt.Go(func() { simrt.Sleep(d); sc.Reply(r) })
+	}
+	s.mu.Lock()
+	healed := s.healed
+	s.mu.Unlock()
+	if healed {
+		send(rsp, 0)
+		return
 	}
 	if !s.faults {
 		if simrt.Draw(3, "c09.okplan") == 2 {
@@ -439,7 +493,8 @@ func (s *S) Check(c *scen.Ctx, res *simrt.Result) {
 		// waits longer than a dial can take count)
 		var stuck []string
 		for i, w := range res.LockWaitEnd {
-			if res.LockWaitFor[i] >= s.dialTO+time.Second {
+			// (nor is one that waits behind a lock holder the slow-node fault has stalled)
+			if res.LockWaitFor[i] >= s.dialTO+time.Second+res.StallTotal {
 				stuck = append(stuck, fmt.Sprintf("%s (for %v)", w, res.LockWaitFor[i]))
 			}
 		}
@@ -447,9 +502,19 @@ func (s *S) Check(c *scen.Ctx, res *simrt.Result) {
 			c.Fail("C09", "goroutine-leak", "blocked-forever", "after all calls had returned and the world had been idle for %v, %d goroutine(s) started by the calls were still blocked on a lock or a sync.Once that nobody will release: %v",
 				s.readTO+ms(s.proxyTO)+ms(2300)+s.dialTO, len(stuck), stuck)
 		}
-		if s.after.QueueLen != s.before.QueueLen || s.after.Pending != s.before.Pending || s.after.InvokeNum != s.before.InvokeNum {
+		// (a keep-alive ping whose goroutine the slow-node fault has stalled holds its place in the
+		// queue for as long as the stall lasts: runs with pings and stalls are not judged)
+		if s.pings && res.Stalls > 0 {
+			c.Count("probe.counters_not_judged_ping_goroutine_may_be_stalled", 1)
+		} else if s.after.QueueLen != s.before.QueueLen || s.after.Pending != s.before.Pending || s.after.InvokeNum != s.before.InvokeNum {
 			c.Fail("C09", "leftover", "proxy-state", "after every call returned and the world was idle for %v: queueLen %d (was %d), pending replies %d (was %d), invokeNum %d (was %d)",
 				s.readTO+ms(s.proxyTO)+ms(2200), s.after.QueueLen, s.before.QueueLen, s.after.Pending, s.before.Pending, s.after.InvokeNum, s.before.InvokeNum)
+		}
+		// the connection's own count of requests awaiting an answer: when every call was answered
+		// (fault-free variant, no unanswered keep-alive pings) nothing is awaiting one any more
+		if !s.faults && !s.pushOn && s.after.ConnInFlight != s.before.ConnInFlight {
+			c.Fail("C09", "leftover", "connection-in-flight", "every call was answered and returned, the world was idle for %v, and the connections still count %d request(s) as awaiting an answer (was %d)",
+				s.readTO+ms(s.proxyTO)+ms(2200), s.after.ConnInFlight, s.before.ConnInFlight)
 		}
 	}
 }
